@@ -51,6 +51,9 @@ def run(ctx):
             with open(fb, "w") as f:
                 for name, n in (("big", 1_300_000 + rnd.randrange(1000)), ("mid", 70_000 + rnd.randrange(1000)), ("small", 9)):
                     f.write(">%s\n%sN\n" % (name, "".join(rnd.choices("ACGTacgtu", k=n))))
+                # one canonical k-mer more than 2^24 times in a single string
+                f.write(">huge\n%s%s%sN\n" % ("A" * (12_000_000 + rnd.randrange(1000)), "t" * (5_500_000 + rnd.randrange(1000)),
+                                              "".join(rnd.choices("ACGT", k=500))))
         else:
             vlib.kvh(["gen", "fasta", s + 11, 40 if big else 14, 400, fb] + extra)
         for size in ((1, 3, 1000) if extra is not None else (1,)):
